@@ -16,8 +16,8 @@ class Check(PropertyCheck):
     assumptions = ["known finding KF-key-concat: identifier sets whose sorted concatenations coincide are exempted and counted"]
 
     def families(self, rng, tier):
-        return [("registry.keys_and_lookup", fam_registry.key_cases(rng, tier)),
-                ("world.registry", fam_world.registry_histories(rng, tier))]
+        return [("registry.keys_and_lookup", fam_registry.key_cases(rng.sub("key_cases"), tier)),
+                ("world.registry", fam_world.registry_histories(rng.sub("registry_histories"), tier))]
 
     def witnesses(self):
         return {"KF-key-concat": fam_registry.collision_witness()}
